@@ -1004,11 +1004,12 @@ pub mod glue {
         if let Some(f) = &w.fault {
             assume(matches!(f.layer, RL::Vlan | RL::Macsec));
         }
+        // (outside the const-generic branches: a witness in the dead branch would come back UNSATISFIABLE)
+        witness!(w.fault.map_or(false, |f| f.off > 0 && s.len() > f.off + f.avail), "7|fault_behind_trimmed_data");
         if LAX {
             let p = LaxPacketHeaders::from_ether_type(EtherType(start), s);
             assert!(p.stop_err.is_some() == w.fault.is_some(), "C07: stop error does not match the reference fault");
             if let (Some((e, _layer)), Some(f)) = (&p.stop_err, &w.fault) {
-                witness!(f.off > 0 && s.len() > f.off + f.avail, "7|err_behind_trimmed_data");
                 check_packet_error(e, f);
             }
             assert!(p.link_exts.len() == w.n_exts);
@@ -1022,7 +1023,6 @@ pub mod glue {
                 }
                 Err(e) => {
                     let f = w.fault.expect("C03: rejected although the reference accepts");
-                    witness!(f.off > 0 && s.len() > f.off + f.avail, "7|err_behind_trimmed_data");
                     check_packet_error(&e, &f);
                 }
             }
